@@ -420,12 +420,8 @@ P10(def, obs, top, mobs, sg) ==
         /\ Justified(def, obs, top)
         /\ SuggestionsExist(def, top, sg))
 
-\* ---- recorded (known) witness classes, see /verif/known_findings.json ---------------------------
-\* KF-C10-1: an override removed the only present member of a group but the group's own entry
-\* stays in the matcher, so a conflict declared against the group still fires
-KF_PhantomGroup(def, top) ==
-  LET f == FailLevel(Build(def, NoInherit), top) P == PresentArgs(f.c, f.E) IN
-  \E i \in 1..Len(f.E.args) : HasGroup(f.c, f.E.args[i].id) /\ ExplicitSrc(f.E.args[i].src) /\ GroupMembers(f.c, f.E.args[i].id) \cap P = {}
+\* (the former witness class KF-C10-1 - a group entry surviving the override of its only present member - was repaired
+\* in clap, fix 6b89b3b; RemoveOverrides in Parser.tla prunes the groups' entries as the code now does)
 
 \* ---- observation equality (argument order inside a level is not observable) ------------------------
 \* ... and the same up to argument indices
